@@ -374,3 +374,11 @@ mod tcp {
         }
     }
 }
+
+#[cfg(feature = "verif")]
+#[allow(unused_imports)]
+pub mod verif {
+    pub use super::tcp::PayloadCodec;
+    pub use super::tcp::ServerContext;
+    pub use super::udp::new_codec as new_udp_codec;
+}
